@@ -307,7 +307,8 @@ class Run(RunBase):
     def _single_add(self, op, kind, spec, lanelet_ids):
         obj = build_obj(kind, spec)
         if lanelet_ids is not None and kind in ("sign", "light"):
-            res = self._expect_add(op, ids_of(kind, spec), lambda: self.sc.add_objects(obj, set(lanelet_ids)))
+            arg = list(lanelet_ids) if len(lanelet_ids) % 2 else set(lanelet_ids)  # both forms are accepted
+            res = self._expect_add(op, ids_of(kind, spec), lambda: self.sc.add_objects(obj, arg))
         else:
             res = self._expect_add(op, ids_of(kind, spec), lambda: self.sc.add_objects(obj))
         if res == "ok":
